@@ -41,6 +41,8 @@ def bounds_text(tier):
 
 def _alphabet(nres):
     ops = [['A', n] for n in NAMES] + [['R', i] for i in range(len(PAIRS))]
+    if nres >= 1:
+        ops.append(['Q'])       # reserve again with the very same request dictionary object as the previous reserve
     for r in range(min(nres, 2)):
         ops.append(['F', r])
         ops.append(['E', r])
@@ -56,7 +58,7 @@ def _sequences(n, prefix=(), nres=0):
         yield list(prefix)
         return
     for op in _alphabet(nres):
-        yield from _sequences(n - 1, prefix + (op,), min(MAXRES, nres + (1 if op[0] == 'R' else 0)))
+        yield from _sequences(n - 1, prefix + (op,), min(MAXRES, nres + (1 if op[0] in 'RQ' else 0)))
 
 
 # prefixes that generate "any reachable state" with 1-2 live reservations: (ops, extra preconditions)
@@ -111,7 +113,7 @@ def jobs(tier):
 
 def required_goals(tier):
     return ['add_rejected', 'capacity_reduced', 'capacity_below_usage', 'reserve_raised', 'reserve_refused',
-            'reserve_granted', 'release_again', 'release_rejected', 'release_partial_ok', 'merged', 'release_empty_dict']
+            'reserve_granted', 'release_again', 'release_rejected', 'release_partial_ok', 'merged', 'release_empty_dict', 'request_dict_reused']
 
 
 def signature(failure):
@@ -187,6 +189,7 @@ def run(shape, args, ctx):
     rm.add_resources('b', args['cb'])
     rm.initialize(env)
     res = []
+    last_req = None
 
     def drain():
         while env._events:
@@ -220,13 +223,21 @@ def run(shape, args, ctx):
                     reducing = (name, zx < 0)
                     ctx.goal_if('capacity_reduced', zx < 0)
                     ctx.goal_if('capacity_below_usage', ctx.And(zx < 0, after[0][name][1] < after[0][name][0]))
-        elif kind == 'R':                                        # reserve
-            names = PAIRS[op[1]]
-            req = {names[0]: x}
-            amounts = {names[0]: zx}
-            if len(names) > 1:
-                req[names[1]] = y
-                amounts[names[1]] = zy
+        elif kind in ('R', 'Q'):                                 # reserve (Q: with the dict object of the previous reserve)
+            if kind == 'Q':
+                if last_req is None:
+                    continue
+                req, amounts = last_req
+                names = tuple(amounts)
+                ctx.goal('request_dict_reused')
+            else:
+                names = PAIRS[op[1]]
+                req = {names[0]: x}
+                amounts = {names[0]: zx}
+                if len(names) > 1:
+                    req[names[1]] = y
+                    amounts[names[1]] = zy
+                last_req = (req, amounts)
             raised = False
             r = None
             try:
@@ -250,6 +261,8 @@ def run(shape, args, ctx):
                     ctx.goal('reserve_granted')
                     ctx.require(ctx.And(fits, nonneg), 'infeasible request granted', str(names))
                     held = after[1][-1]
+                    ctx.require(set(req) == set(amounts) and ctx.And(*[ctx.z(req[n]) == amounts[n] for n in amounts]),
+                                'reserve_resources modified the caller\'s request dictionary', str(names))
                     for n, v in amounts.items():
                         ctx.require(after[0][n][0] == before[0][n][0] + v, 'reserve took != requested', n)
                         ctx.require(held.get(n, 0) == v, 'reservation holds != requested', n)
